@@ -158,3 +158,26 @@ PROPS["C05"] = {
     ],
     "min_nontrivial": {"quick": 300, "thorough": 5000},
 }
+
+PROPS["C03"] = {
+    "level": "exploration",
+    "design_ref": "DESIGN.md §4.3",
+    "technique": "rapid-generated statements of the full language; differential Next-drain vs Batch-drain at two batch sizes, content-normalised rows, resulting stores for writes",
+    "level_text": "Randomised differential exploration: statements of the full language (all scalar functions incl. substr/json/distances, "
+                  "list and JSON indexing, aliases, aggregates incl. quantile, ORDER BY, GROUP BY, LIMIT, PUT, REMOVE, DELETE) are executed "
+                  "over equal stores once with Next and with Batch at two batch sizes drawn from {1,2,3,5,32,64}. If batch iteration "
+                  "completes, row iteration must complete; if both complete, rows must be equal position by position under the content value "
+                  "model (ORDER BY ties as multisets) and writes must leave equal stores. Statements may fail at run time (that is part of the domain).",
+    "level_note": "No reference evaluator is involved: the two iteration modes are compared with each other, which is what the property states. "
+                  "Row-ok/batch-error is allowed (row mode short-circuits & and |) and counted.",
+    "rule": "rapid: store kind x size (0..70) x two batch sizes x statement (60% SELECT with aliases/aggregates/order/limit, 10% DELETE, 15% PUT, 15% REMOVE) "
+            "with exotic constructs enabled. Non-trivial = both modes complete, the result has >= 2 rows or spans more than one chunk, and the "
+            "statement uses a construct with a twin implementation (function, alias, index, aggregate, order, limit, write); "
+            "distinct = distinct (query, store, batch sizes).",
+    "assumptions": COMMON_ASSUMPTIONS,
+    "legs": [
+        {"test": "TestC03", "kind": "rapid",
+         "quick": {"checks": 8000, "shards": 4, "shrink": "15s"}, "thorough": {"checks": 250000, "shards": 16}},
+    ],
+    "min_nontrivial": {"quick": 5000, "thorough": 100000},
+}
